@@ -134,6 +134,9 @@ impl HolderKey {
                 v["kid"] = Value::String("wallet-key-rotated-label".into());
                 v["use"] = Value::String("sig".into());
                 v["alg"] = Value::String("ES256".into());
+                // X.509 members a wallet's key may carry: the confirmed key is the JWK as given
+                v["x5u"] = Value::String("https://wallet.example/keys/1.pem".into());
+                v["x5t#S256"] = Value::String("jsu9yVulwQQlhFlM_3JlzMaSFzglhQG0DpfayQwLUK4".into());
             }
             serde_json::from_value(v).unwrap()
         })
